@@ -145,7 +145,31 @@ func runLogin(r *core.Run) {
 		if useClock {
 			var s string
 			var t uint32
-			r.Call("cmpp.GenConnectTimestamp", func() { s, t = cmpp.GenConnectTimestamp(nil) })
+			if c.Bool() {
+				// the injected-clock seam of the API: a clock that ticks between two readings
+				step := []time.Duration{0, 300 * time.Millisecond, 700 * time.Millisecond, time.Second, 61 * time.Second}[c.Intn(5)]
+				k := 0
+				base := time.Now()
+				// start just before a second / minute boundary in some runs
+				if c.Bool() {
+					base = base.Truncate(time.Minute).Add(59*time.Second + 800*time.Millisecond)
+				}
+				tick := func() time.Time { k++; return base.Add(time.Duration(k-1) * step) }
+				r.Call("cmpp.GenConnectTimestamp", func() { s, t = cmpp.GenConnectTimestamp(tick) })
+				if step > 0 {
+					r.Fault("clock_ticks_between_readings")
+				}
+				// whatever instant the library sampled, string and integer must denote the same one
+				ts = t
+				expect = indepDigest(account, zeros, secret, ts)
+				cls = nulClass(expect)
+				if s != fmt.Sprintf("%010d", t) {
+					r.Fail("C15", "timestamp", reqSite, "string-vs-integer", "GenConnectTimestamp returned the string %q and the integer %010d: two different instants", s, t)
+					return
+				}
+			} else {
+				r.Call("cmpp.GenConnectTimestamp", func() { s, t = cmpp.GenConnectTimestamp(nil) })
+			}
 			req = &cmpp30.Connect{Header: cmpp.NewHeader(0, cmpp.CommandConnect, seq), SourceAddr: account,
 				AuthenticatorSource: string(cmpp.GenConnectAuth(account, secret, s)), Version: cmpp.Version30, Timestamp: t}
 		} else {
@@ -217,6 +241,9 @@ func runLogin(r *core.Run) {
 			r.Fail("C15", "verify", reqSite, "wrong-secret-accepted", "the server's recomputation with a different secret equals the received authenticator")
 		}
 	} else if !accepted {
+		if cls == "trailing-nul" && rcvAuth != string(bytes.TrimRight(serverExpect, "\x00")) {
+			cls = "trailing-nul-differs" // more than the known loss of the trailing zero octets
+		}
 		r.Fail("C15", "verify", reqSite, cls, "correct credentials refused: received authenticator %x (%d octets), recomputed %x", rcvAuth, len(rcvAuth), serverExpect)
 	}
 	// ---------------- response
@@ -295,6 +322,9 @@ func runLogin(r *core.Run) {
 			r.Fail("C15", "verify", respSite, "wrong-secret-accepted", "the client's recomputation with a different secret equals the server authenticator")
 		}
 	} else if !ok {
+		if rcls == "trailing-nul" && rcvSrvAuth != string(bytes.TrimRight(clientExpect, "\x00")) {
+			rcls = "trailing-nul-differs"
+		}
 		r.Fail("C15", "verify", respSite, rcls, "the client cannot verify a correct server: received %x (%d octets), recomputed %x", rcvSrvAuth, len(rcvSrvAuth), clientExpect)
 	}
 }
